@@ -116,6 +116,8 @@ def make_jobs(ctx):
                         info=dict(layer="R", note="memset / memmove are recorders: every address, value and count 0..2^32-1")))
     jobs += g_probes(ctx)
     jobs += expr_jobs(ctx, ["load", "store", "memory_size", "memory_grow"])
+    from ..eexpr import memop_jobs
+    jobs += memop_jobs(ctx, (0, 1))      # every plain load / store opcode -> its runtime function and result type, at every stack height
     # data segments kept outside the C file (-d gnu-ld): the bytes memory.init / the active segments copy come from blob offsets that must count
     # passive segments too (instantiation probe of C06 with a passive segment between active ones)
     from . import c06
